@@ -2,6 +2,7 @@
 use crate::fw::{LaneCtx, Verdict};
 use serde_json::Value;
 
+pub mod c13;
 pub mod c16;
 
 pub struct Info {
@@ -23,5 +24,6 @@ macro_rules! registry {
 }
 
 registry! {
+    "C13" => c13,
     "C16" => c16,
 }
